@@ -155,6 +155,7 @@ class Controller:
 
   def __init__(self, fns, strategy, gate_of, accept_code, acquire_label=None, max_steps=200000, step_timeout=30.0):
     self.acquire_label = acquire_label
+    self.after_gate = None
     self.workers = [Worker(self, i, f) for i, f in enumerate(fns)]
     self.strategy = strategy
     self.gate_of, self.accept_code = gate_of, accept_code
@@ -184,6 +185,8 @@ class Controller:
         label = gate_of(frame, state)
         if label is not None:
           w.park(label)
+          if self.after_gate is not None:
+            self.after_gate(w, label, frame)      # runs on the worker, right before the gated statement executes
       return local
     return local
 
